@@ -92,7 +92,7 @@ inline ThetaState gen_theta(int variant, Rng& r, bool small) {
 template<typename SK> void theta_common_readout(J& j, const SK& s) {
   j.put("is_empty", s.is_empty()).put("is_ordered", s.is_ordered()).put("is_estimation_mode", s.is_estimation_mode())
    .put("theta64", s.get_theta64()).put("seed_hash", s.get_seed_hash()).put("num_retained", s.get_num_retained())
-   .put("estimate", s.get_estimate()).put("lower_bound_2", s.get_lower_bound(2)).put("upper_bound_2", s.get_upper_bound(2));
+   .put("q_estimate", s.get_estimate()).put("q_lower_bound_2", s.get_lower_bound(2)).put("q_upper_bound_2", s.get_upper_bound(2));
 }
 inline std::string readout_theta(const compact_theta_sketch& s) {
   J j; j.put("family", std::string("theta"));
@@ -352,13 +352,15 @@ inline hll_sketch read_hll(const std::string& img, bool stream) {
 inline std::string readout_hll(const hll_sketch& s) {
   J j; j.put("family", std::string("hll"));
   j.put("lg_k", s.get_lg_config_k()).put("target_type", int32_t(s.get_target_type())).put("is_empty", s.is_empty())
-   .put("estimate", s.get_estimate()).put("composite_estimate", s.get_composite_estimate())
-   .put("lower_bound_2", s.get_lower_bound(2)).put("upper_bound_2", s.get_upper_bound(2));
+   .put("q_estimate", s.get_estimate()).put("q_composite_estimate", s.get_composite_estimate())
+   .put("q_lower_bound_2", s.get_lower_bound(2)).put("q_upper_bound_2", s.get_upper_bound(2));
   // content: registers / coupons as seen through an HLL_8 updatable image decoded by the independent decoder
   const hll_sketch s8(s, HLL_8);
   const auto img = s8.serialize_updatable();
   Hll d = decode_hll(img.data(), img.size(), false);
-  j.put("mode", int32_t(d.mode));
+  j.put("mode", int32_t(d.mode)).put("out_of_order", d.ooo);
+  // (an out-of-order sketch estimates from the registers, and its accumulators depend on how the union rebuilt them)
+  if (d.mode == 2 && !d.ooo) j.put("hip_accum", d.hip).put("kxq0", d.kxq0).put("kxq1", d.kxq1).put("num_at_cur_min", d.num_at_cur_min);
   std::vector<uint32_t> cp = d.coupons; std::sort(cp.begin(), cp.end());
   j.arr("coupons_sorted", cp);
   std::vector<uint32_t> regs(d.regs.begin(), d.regs.end());
@@ -464,8 +466,15 @@ inline cpc_sketch read_cpc(const std::string& img, bool stream, uint64_t seed) {
 }
 inline std::string readout_cpc(const cpc_sketch& s) {
   J j; j.put("family", std::string("cpc"));
-  j.put("lg_k", s.get_lg_k()).put("is_empty", s.is_empty()).put("num_coupons", s.get_num_coupons()).put("estimate", s.get_estimate())
-   .put("lower_bound_2", s.get_lower_bound(2)).put("upper_bound_2", s.get_upper_bound(2)).put("validate", s.validate());
+  j.put("lg_k", s.get_lg_k()).put("is_empty", s.is_empty()).put("num_coupons", s.get_num_coupons()).put("q_estimate", s.get_estimate())
+   .put("q_lower_bound_2", s.get_lower_bound(2)).put("q_upper_bound_2", s.get_upper_bound(2)).put("validate", s.validate());
+  // stored state as seen through a re-serialized image read by the independent decoder (the entropy-coded payload is a
+  // deterministic function of the coupon matrix: its hash stands for the matrix)
+  const auto img = s.serialize();
+  const Cpc d = decode_cpc(img.data(), img.size());
+  uint64_t ph = 0x9e37; for (size_t i = size_t(d.pre_ints) * 4; i < img.size(); ++i) ph = (ph ^ img[i]) * 0x100000001b3ULL;
+  j.put("first_interesting_column", d.fic).put("has_hip", d.has_hip).put("kxp", d.kxp).put("hip_accum", d.hip)
+   .put("table_num_entries", d.table_num_entries).put("payload_words", d.table_words + d.window_words).put("payload_hash", ph);
   return j.done();
 }
 inline void decode_check_cpc(const CpcState& st, const std::string& img, const std::string& ctx) {
